@@ -19,7 +19,7 @@ the index choices and the -kT ln u thresholds are passed in as arrays.
                           occupied_set) pairs x thresholds {0, |dE|/2, 2|dE|, inf}: one batch call == the same moves
                           one at a time == Metropolis rule (accept iff dE < threshold) applied to the reference sampler.
                L = 3 for supercells with <= 4 mobile sites (all start states); for 8 sites: L = 1 from every state,
-               L = 2 from states with counting index = 0 mod 17, L = 3 from the states with counting index 90 (quick) / 37 and 90 (thorough).
+               L = 2 from states with counting index = 0 mod 17, L = 3 from the states with counting index 90 (quick) / 37 and 90 (thorough), split into one case per first move.
  After every operation: occ, E, clustercount, Nocc/Nunocc, occupied/unoccupied sets (as sets), index consistency
  (occupied_set[index[i]] == i ...) equal the reference; batch vs one-at-a-time compiled objects: all arrays identical.
 
@@ -79,8 +79,17 @@ def cases(tier):
                 out.append({'key': 'lock:{}:cut{}o{}:vac{}:{}:s{}:chunk{}of{}'.format(name, icut, order, '-' if vac is None else vac, 'jn' if jn else 'nojn',
                                                                                   ''.join(map(str, sb)) or '-', ch, nchunk),
                             'kind': 'lock', 'sup': name, 'icut': icut, 'order': order, 'vac': vac, 'jn': jn, 'socc': list(sb),
-                            'chunk': ch, 'nchunk': nchunk, 'l3': _l3(tier),
-                            'cost': nstates / nchunk * nm ** 2 * (100 if nm > 5 and any(x % nchunk == ch for x in _l3(tier)) else 1)})
+                            'chunk': ch, 'nchunk': nchunk, 'cost': nstates / nchunk * nm ** 2})
+            if nm > 5:
+                # MCmoves length 3 from the listed start states: one case per first move (a, b)
+                for n3 in _l3(tier):
+                    occ3 = list(en.all_occupations(nm, vac))[n3]
+                    npair = int(np.sum(occ3 == 0) * np.sum(occ3 == 1))
+                    for first in range(npair):
+                        out.append({'key': 'lock:{}:cut{}o{}:vac{}:{}:s{}:L3state{}:first{}'.format(name, icut, order, '-' if vac is None else vac,
+                                                                                                  'jn' if jn else 'nojn', ''.join(map(str, sb)) or '-', n3, first),
+                                    'kind': 'lock', 'sup': name, 'icut': icut, 'order': order, 'vac': vac, 'jn': jn, 'socc': list(sb),
+                                    'chunk': 0, 'nchunk': 1, 'l3state': n3, 'l3first': first, 'cost': 1e6})
     return out
 
 
@@ -251,9 +260,12 @@ def evaluate(case):
     jit = jit0       # the long-lived compiled object
 
     allocc = list(en.all_occupations(nm, vac))
+    l3state, l3first = case.get('l3state'), case.get('l3first')
+    nstart = 0
     for n, start in enumerate(allocc):
         if n % case['nchunk'] != case['chunk']: continue
         if case.get('only') is not None and en.bits(start) != case['only']: continue
+        if l3state is not None and n != l3state: continue
         sb = en.bits(start)
         # export of a started reference sampler
         ref.start(start.copy())
@@ -264,10 +276,11 @@ def evaluate(case):
         if not check(jit, start, 'start', True): continue
         e0 = float(ref.E())
         outcomes.add(round(e0, 9))
+        nstart += 1
         un = [int(x) for x in jit.unoccupied_set[:jit.Nunocc]]
         oc = [int(x) for x in jit.occupied_set[:jit.Nocc]]
-        # trials and single updates
-        for i in un:
+        # trials and single updates (not repeated in the L3 sub-cases)
+        for i in (un if l3state is None else []):
             for j in oc:
                 dr = float(ref.deltaE_trial((i,), (j,)))
                 dj = float(jit.deltaE_trial(i, j)); stats['ops'] += 1
@@ -278,8 +291,7 @@ def evaluate(case):
                 if ok and abs(float(jc.E()) - e0 - dj) > TOL: bad('lockstep-dE-vs-E', start, 'update({},{})'.format(i, j), [float(jc.E()) - e0, dj])
                 ref.update((j,), (i,))
         # MCmoves sequences
-        if nm <= 5: L = 3
-        elif n in case.get('l3', ()): L = 3
+        if nm <= 5 or l3state is not None: L = 3
         elif n % 17 == 0: L = 2
         else: L = 1
         root = jit.copy()
@@ -288,6 +300,7 @@ def evaluate(case):
             nu_, no_ = int(node.Nunocc), int(node.Nocc)
             for a in range(nu_):
                 for b in range(no_):
+                    if depth == 0 and l3first is not None and a * no_ + b != l3first: continue
                     i, j = int(node.unoccupied_set[a]), int(node.occupied_set[b])
                     dE = float(ref.deltaE_trial((i,), (j,)))
                     for thr in thresholds(dE):
@@ -319,6 +332,6 @@ def evaluate(case):
         if not np.array_equal(np.asarray(ref.occ), start): raise RuntimeError('explorer: backtracking did not restore the start state')
         # copies were moved, the object they were copied from must not have
         check(root, start, 'copy-independence', False)
-    return {'states': sum(1 for n in range(len(allocc)) if n % case['nchunk'] == case['chunk']), 'transitions': stats['ops'], 'execs': stats['ops'],
+    return {'states': nstart, 'transitions': stats['ops'], 'execs': stats['ops'],
             'outcomes': [str(o) for o in outcomes], 'nontrivial': stats['nontriv'], 'violations': viols,
             'sample': {'case': case['key'], 'numpy.Inf aliased': _STATE['shim'], 'jumps': len(ref.jumps) if ref.jumps else 0}}
